@@ -1,0 +1,6 @@
+//go:build !verif
+
+package keystore
+
+// verifSignHook is a no-op in normal builds (see verif_hook.go).
+func verifSignHook() {}
